@@ -95,7 +95,7 @@ def run_check(pid, tier, seed, write_baseline=False):
     discharged = [o for o in obligations if o["status"] == "discharged"]
     refuted = [o for o in obligations if o["status"] == "refuted"]
     unknown = [o for o in obligations if o["status"] == "unknown"]
-    missing = sorted(base_ids - {o["id"] for o in obligations})
+    missing = [] if write_baseline else sorted(base_ids - {o["id"] for o in obligations})
 
     out_lines = []
     violations = []
